@@ -95,18 +95,18 @@ type plan struct {
 	changes []schema.Change
 	start   struct {
 		tables []string
-		fks    [][3]string
+		fks    [][4]string
 	}
 	want struct {
 		tables []string
-		fks    [][3]string
+		fks    [][4]string
 	}
 }
 
 // scenarioChanges derives the change set, the start and the wanted catalogue from (graph, roles).
 func scenarioChanges(w *world, n int, edges [][2]int, roles string) *plan {
 	p := &plan{}
-	p.start.tables, p.start.fks, p.want.tables, p.want.fks = []string{}, [][3]string{}, []string{}, [][3]string{}
+	p.start.tables, p.start.fks, p.want.tables, p.want.fks = []string{}, [][4]string{}, []string{}, [][4]string{}
 	exists0 := func(i int) bool { return roles[i] != 'c' }
 	exists1 := func(i int) bool { return roles[i] != 'd' }
 	startF := map[int][]*schema.ForeignKey{}
@@ -142,13 +142,13 @@ func scenarioChanges(w *world, n int, edges [][2]int, roles string) *plan {
 		if exists0(i) {
 			p.start.tables = append(p.start.tables, names[i])
 			for _, fk := range startF[i] {
-				p.start.fks = append(p.start.fks, [3]string{fk.Table.Name, fk.RefTable.Name, fk.Symbol})
+				p.start.fks = append(p.start.fks, fkTuple(fk))
 			}
 		}
 		if exists1(i) {
 			p.want.tables = append(p.want.tables, names[i])
 			for _, fk := range endF[i] {
-				p.want.fks = append(p.want.fks, [3]string{fk.Table.Name, fk.RefTable.Name, fk.Symbol})
+				p.want.fks = append(p.want.fks, fkTuple(fk))
 			}
 		}
 	}
@@ -182,12 +182,15 @@ var (
 	reIdent      = `(?:` + "`[^`]+`" + `|"[^"]+")`
 	reQualified  = regexp.MustCompile(`(` + reIdent + `)\.(` + reIdent + `)`)
 	reCreate     = regexp.MustCompile(`^CREATE TABLE (?:IF NOT EXISTS )?((?:` + reIdent + `\.)?` + reIdent + `)`)
-	reInline     = regexp.MustCompile(`CONSTRAINT (` + reIdent + `) FOREIGN KEY \([^)]*\) REFERENCES ((?:` + reIdent + `\.)?` + reIdent + `)`)
+	reActions    = `((?: ON (?:UPDATE|DELETE) (?:NO ACTION|RESTRICT|CASCADE|SET NULL|SET DEFAULT))*)`
+	reInline     = regexp.MustCompile(`CONSTRAINT (` + reIdent + `) FOREIGN KEY \([^)]*\) REFERENCES ((?:` + reIdent + `\.)?` + reIdent + `) ?\([^)]*\)` + reActions)
 	reAlter      = regexp.MustCompile(`^ALTER TABLE ((?:` + reIdent + `\.)?` + reIdent + `) (.*)$`)
-	reAddFK      = regexp.MustCompile(`ADD CONSTRAINT (` + reIdent + `) FOREIGN KEY \([^)]*\) REFERENCES ((?:` + reIdent + `\.)?` + reIdent + `)`)
+	reAddFK      = regexp.MustCompile(`ADD CONSTRAINT (` + reIdent + `) FOREIGN KEY \([^)]*\) REFERENCES ((?:` + reIdent + `\.)?` + reIdent + `) ?\([^)]*\)` + reActions)
 	reDropFK     = regexp.MustCompile(`DROP (?:FOREIGN KEY|CONSTRAINT) (` + reIdent + `)`)
 	reAddChk     = regexp.MustCompile(`ADD (?:CONSTRAINT (` + reIdent + `) )?CHECK \(`)
 	reDropChk    = regexp.MustCompile(`DROP (?:CONSTRAINT|CHECK) (` + "[`\"]ck_[a-z0-9_]+[`\"]" + `)`)
+	reAddIdx     = regexp.MustCompile(`ADD (?:UNIQUE |FULLTEXT |SPATIAL )?(?:INDEX|KEY) (` + reIdent + `)(?: USING \w+)? ?\(([^)]*)\)`)
+	reCreateIdx  = regexp.MustCompile(`^CREATE (?:UNIQUE )?INDEX (?:CONCURRENTLY )?(?:IF NOT EXISTS )?` + reIdent + ` ON ((?:` + reIdent + `\.)?` + reIdent + `)(?: USING \w+)? ?\(([^)]*)\)`)
 	reDropT      = regexp.MustCompile(`^DROP TABLE (?:IF EXISTS )?((?:` + reIdent + `\.)?` + reIdent + `)`)
 	reCommentCol = regexp.MustCompile(`COMMENT ON COLUMN (` + reIdent + `(?:\.` + reIdent + `){1,2})`)
 	reIdentOnly  = regexp.MustCompile(reIdent)
@@ -195,6 +198,27 @@ var (
 	// positions where a table / type / (PostgreSQL) index is referenced and may carry a schema qualifier
 	reRefPos = regexp.MustCompile(`(?:\bTABLE|\bREFERENCES|\bTYPE|\bON|DROP INDEX(?: CONCURRENTLY)?|ALTER INDEX) (?:IF (?:NOT )?EXISTS )?((?:` + reIdent + `\.)?` + reIdent + `)`)
 )
+
+// fkTuple is a foreign key as the catalogue model sees it: child, parent, constraint name and the rest of its definition spelled the
+// way both planners spell it.
+func fkTuple(fk *schema.ForeignKey) [4]string {
+	var d []string
+	if fk.OnUpdate != "" {
+		d = append(d, "ON UPDATE "+string(fk.OnUpdate))
+	}
+	if fk.OnDelete != "" {
+		d = append(d, "ON DELETE "+string(fk.OnDelete))
+	}
+	return [4]string{fk.Table.Name, fk.RefTable.Name, fk.Symbol, strings.Join(d, " ")}
+}
+
+// nparts: 0 for an empty key-part list, otherwise a positive number (the text up to the first closing parenthesis is enough to tell)
+func nparts(list string) int {
+	if strings.TrimSpace(list) == "" {
+		return 0
+	}
+	return 1 + strings.Count(list, ",")
+}
 
 func unq(s string) string { return strings.Trim(s, "`\"") }
 
@@ -251,10 +275,10 @@ func events(cid int, cmd string) []ev {
 		_, t := splitQ(reCreate.FindStringSubmatch(flat)[1])
 		e := base("create")
 		e["t"] = t
-		inl := [][3]string{}
+		inl := [][4]string{}
 		for _, m := range reInline.FindAllStringSubmatch(flat, -1) {
 			_, p := splitQ(m[2])
-			inl = append(inl, [3]string{t, p, unq(m[1])})
+			inl = append(inl, [4]string{t, p, unq(m[1]), strings.TrimSpace(m[3])})
 		}
 		e["inline"] = inl
 		return []ev{e}
@@ -276,7 +300,7 @@ func events(cid int, cmd string) []ev {
 		for _, ix := range reAddFK.FindAllStringSubmatchIndex(m[2], -1) {
 			e := base("addfk")
 			_, p := splitQ(m[2][ix[4]:ix[5]])
-			e["t"], e["p"], e["n"] = t, p, unq(m[2][ix[2]:ix[3]])
+			e["t"], e["p"], e["n"], e["d"] = t, p, unq(m[2][ix[2]:ix[3]]), strings.TrimSpace(m[2][ix[6]:ix[7]])
 			hits = append(hits, hit{ix[0], e})
 		}
 		for _, ix := range reAddChk.FindAllStringSubmatchIndex(m[2], -1) {
@@ -294,6 +318,11 @@ func events(cid int, cmd string) []ev {
 		for _, ix := range reDropChk.FindAllStringSubmatchIndex(m[2], -1) {
 			e := base("dropcheck")
 			e["t"], e["n"] = t, unq(m[2][ix[2]:ix[3]])
+			hits = append(hits, hit{ix[0], e})
+		}
+		for _, ix := range reAddIdx.FindAllStringSubmatchIndex(m[2], -1) {
+			e := base("addindex")
+			e["t"], e["k"] = t, nparts(m[2][ix[4]:ix[5]])
 			hits = append(hits, hit{ix[0], e})
 		}
 		for _, ix := range reDropFK.FindAllStringSubmatchIndex(m[2], -1) {
@@ -314,6 +343,12 @@ func events(cid int, cmd string) []ev {
 			es = append(es, e)
 		}
 		return es
+	}
+	if m := reCreateIdx.FindStringSubmatch(flat); m != nil {
+		e := base("addindex")
+		_, e["t"] = splitQ(m[1])
+		e["k"] = nparts(m[2])
+		return []ev{e}
 	}
 	e := base("other")
 	// statements on other objects (indexes, comments, types): attach to a table when one is named after ON
@@ -453,6 +488,8 @@ func main() {
 		random = flag.Int("random", 0, "additionally N random graphs over up to 8 tables")
 		qual   = flag.Bool("qual", false, "C16 scenarios only")
 		chks   = flag.Bool("checks", false, "C17: up/down of CHECK constraint changes at catalogue level")
+		fkmod  = flag.Bool("fkmod", false, "C04/C17: a foreign key modified in place (referenced table, actions), up and up/down")
+		colmod = flag.Bool("colmod", false, "C17: a column modified in place, events for ColCatalogTrace.tla")
 	)
 	flag.Parse()
 	f, err := os.Create(*outp)
@@ -460,8 +497,15 @@ func main() {
 		panic(err)
 	}
 	out = bufio.NewWriterSize(f, 1<<20)
-	if *chks {
-		runChecks()
+	if *chks || *fkmod || *colmod {
+		if *colmod {
+			runColMod()
+			runIdxMod()
+		} else if *fkmod {
+			runFKMod()
+		} else {
+			runChecks()
+		}
 		out.Flush()
 		f.Close()
 		b, _ := json.Marshal(cases)
